@@ -354,6 +354,7 @@ func (p *Plan) abstractAlternative(fp *fieldPlan, runtimeType *Object) *selectio
 	if sub, ok := fp.abstractAlternatives[runtimeType]; ok {
 		return sub
 	}
+	verifStep(2)
 	sub := p.planMergedSelectionsForType(runtimeType, fp.fieldASTs, fp.env, fp.opens)
 	fp.abstractAlternatives[runtimeType] = sub
 	return sub
@@ -364,6 +365,7 @@ func (p *Plan) abstractAlternative(fp *fieldPlan, runtimeType *Object) *selectio
 // selectionPlan that mirrors what completeObjectValue's runtime
 // collectFields loop would produce.
 func (p *Plan) planMergedSelectionsForType(parentType *Object, fieldASTs []*ast.Field, env directiveEnv, opens []map[string]bool) *selectionPlan {
+	verifStep(1)
 	sp := &selectionPlan{parentType: parentType}
 	keyed := map[string]int{}
 	visited := map[string]bool{}
@@ -403,6 +405,7 @@ func (p *Plan) planMergedSelectionsForType(parentType *Object, fieldASTs []*ast.
 // collectFields's `fields[name] = append(fields[name], selection)`).
 func (p *Plan) collectInto(parentType *Object, selectionSet *ast.SelectionSet, visitedFragmentNames map[string]bool, sp *selectionPlan, keyed map[string]int, env directiveEnv, open map[string]bool) {
 	for _, iSelection := range selectionSet.Selections {
+		verifStep(0)
 		switch sel := iSelection.(type) {
 		case *ast.Field:
 			if !planIncludes(sel.Directives, env) {
